@@ -1,5 +1,6 @@
 import LopdfModel.Model.Obj
 import LopdfModel.Model.Pages
+import LopdfModel.Model.Read
 import LopdfModel.Gen.Crypt
 import LopdfModel.Gen.Tables
 /-
@@ -101,8 +102,8 @@ structure Prims where
   /-- AES block encryption `key → block → block` (key of 16 or 32 bytes) -/
   aesEnc : Bytes → Bytes → Bytes
   aesDec : Bytes → Bytes → Bytes
-  /-- Algorithm 2.B for revision 6: password, salt, user-key data -/
-  hash2b : Bytes → Bytes → Bytes → Bytes
+  sha384 : Bytes → Bytes
+  sha512 : Bytes → Bytes
 
 inductive Err where
   | invalidKeyLength | invalidCipherTextLength | padding | incorrectPassword
@@ -508,9 +509,37 @@ def Alg.authOwnerR4 (P : Prims) (a : Alg) (fileId pw : Bytes) : Except Err Unit 
   if keyBytes a.revision a.length > 16 then .error .invalidKeyLength
   else a.authUserR4 P fileId (a.recoverUser P pw)
 
+def repBytes : Nat → Bytes → Bytes
+  | 0, _ => []
+  | n + 1, b => b ++ repBytes n b
+
+/-- one round of the loop of `compute_hash`: `K1` = 64 × (password ‖ K ‖ user key), AES-128-CBC (no
+padding, `chunks_exact_mut(16)`) with key `K[..16]` and IV `K[16..32]`, then SHA-256 / 384 / 512 of `E`
+selected by `(sum of E[..16]) % 3` — the code adds the 16 bytes as `u32` instead of reading them as a
+big-endian integer. Returns the new `K` and the last byte of `E` (`unwrap_or(0)`). -/
+def hash2BRound (P : Prims) (pw udata k : Bytes) : Bytes × Nat :=
+  let k1 := repBytes 64 (pw ++ k ++ udata)
+  let e := cbcEnc (P.aesEnc (k.take 16)) ((k.drop 16).take 16) k1
+  let m := ((e.take 16).foldl (fun (acc : Nat) (b : UInt8) => acc + b.toNat) 0) % 3
+  (if m = 0 then P.sha256 e else if m = 1 then P.sha384 e else P.sha512 e, (e.getLast?.getD 0).toNat)
+
+/-- `for round in 1.. { … if round >= 64 && last <= round - 32 { break } }`.  The Rust loop has no
+upper bound; since `last ≤ 255` it stops in round 287 at the latest, so 287 available rounds (`left`)
+are never exhausted — `hash2BLoop_stable` (Thm/C06) proves that any larger supply gives the same
+result, i.e. `left` is a real bound, not fuel. -/
+def hash2BLoop (P : Prims) (pw udata : Bytes) : Nat → Nat → Bytes → Bytes
+  | 0, _, k => k
+  | left + 1, round, k =>
+    let r := hash2BRound P pw udata k
+    if round ≥ 64 && r.2 ≤ round - 32 then r.1 else hash2BLoop P pw udata left (round + 1) r.1
+
+/-- `compute_hash` for revision 6 (Algorithm 2.B as coded): `k.truncate(32)` at the end -/
+def hash2B (P : Prims) (pw salt udata : Bytes) : Bytes :=
+  (hash2BLoop P pw udata 287 1 (P.sha256 (pw ++ salt ++ udata))).take 32
+
 /-- `compute_hash` (Algorithm 2.B; revision 5 = plain SHA-256) -/
 def Alg.hash (P : Prims) (a : Alg) (pw salt udata : Bytes) : Bytes :=
-  if a.revision = 5 then P.sha256 (pw ++ salt ++ udata) else P.hash2b pw salt udata
+  if a.revision = 5 then P.sha256 (pw ++ salt ++ udata) else hash2B P pw salt udata
 
 def slice (b : Bytes) (off len : Nat) : Bytes := (b.drop off).take len
 
@@ -824,8 +853,39 @@ def decodeState (P : Prims) (enc : Dict) (fileId pw : Bytes) : Except Err EncSta
             ownerValue := a.ownerValue, ownerEncrypted := a.ownerEncrypted, userValue := a.userValue,
             userEncrypted := a.userEncrypted, permissions := a.permissions, permsEncrypted := a.permsEncrypted }
 
-/-- `Document::decrypt_raw` for documents without `ObjStm` streams (their re-expansion is
-outside this model; the harness never puts one into a C05 case). -/
+/-- is this a stream with `/Type /ObjStm` (`stream.dict.has_type(b"ObjStm")`) -/
+def isObjStmStream : Obj → Bool
+  | .stream d _ => hasType d OBJSTM
+  | _ => false
+
+/-- the members `decrypt_raw` collects from the (now decrypted) object streams, container by
+container in `BTreeMap` order: `object_streams.extend(obj_stream.objects)`; a container that
+`ObjectStream::new` cannot read contributes nothing.  `none`: a container carries a `Filter` or a
+non-ASCII index (outside the model of `ObjectStream::new`, Model/Read.lean). -/
+def objStmExtras : Objects → Option (List (ObjId × Obj))
+  | [] => some []
+  | (_, o) :: rest =>
+    match objStmExtras rest with
+    | none => none
+    | some tail =>
+      match o with
+      | .stream d c =>
+        if hasType d OBJSTM then
+          match objStmObjects d c with
+          | .ok objs => some (objs ++ tail)
+          | .err "ext" => none
+          | _ => some tail
+        else some tail
+      | _ => some tail
+
+/-- `self.objects.entry(id).or_insert(entry)`: only add, never replace -/
+def orInsertAll (os : Objects) : List (ObjId × Obj) → Objects
+  | [] => os
+  | (id, o) :: rest => orInsertAll (if (Objects.get os id).isSome then os else Objects.insert os id o) rest
+
+/-- `Document::decrypt_raw`: authenticate, decode the state, decrypt every object but the encryption
+dictionary, re-expand the object streams (members never replace existing objects), drop the
+Encrypt entry and object. -/
 def Doc.decryptRaw (P : Prims) (d : Doc) (pw : Bytes) : Except Err Doc :=
   match d.getEncrypted with
   | some enc =>
@@ -846,8 +906,12 @@ def Doc.decryptRaw (P : Prims) (d : Doc) (pw : Bytes) : Except Err Doc :=
           match decObjects P st encId d.objects with
           | .error e => .error e
           | .ok os =>
-            .ok { trailer := d.trailer.remove K_ENCRYPT,
-                  objects := (match encId with | some id => Objects.erase os id | none => os), maxId := d.maxId }
+            match objStmExtras os with
+            | none => .error (.other "ext")
+            | some extras =>
+              let os := orInsertAll os extras
+              .ok { trailer := d.trailer.remove K_ENCRYPT,
+                    objects := (match encId with | some id => Objects.erase os id | none => os), maxId := d.maxId }
   | none => .error .notEncrypted
 
 /-- `sanitize_password_r4` on the UTF-16 code units of the password: every unit is looked up in
